@@ -1,6 +1,8 @@
 #!/bin/bash
 # Full .vo build of /verif/coq (no -vos). Usage: coqbuild.sh [make targets...]
 cd /verif/coq || exit 2
+# manual use: regenerate Gen/*.v from /repo first (the checks regenerate from their scratch copy and set VERIF_NO_REGEN)
+[ -n "$VERIF_NO_REGEN" ] || python3 /verif/translate/py2v.py /repo /verif/coq/Gen >/dev/null || echo "TRANSLATOR FAILED"
 { echo "-R . SP"; find Base Gen Spec Model Proofs Props Extract -name '*.v' 2>/dev/null | sort; } > _CoqProject.new
 cmp -s _CoqProject.new _CoqProject || { mv _CoqProject.new _CoqProject; coq_makefile -f _CoqProject -o Makefile >/dev/null; }
 rm -f _CoqProject.new
